@@ -198,7 +198,8 @@ def run(ctx, widen=False):
     ctx.bump("(c) grammar", nc + nc // 2)
     esc = []
     for c in "abfnrtv0123456789xuUN\\'\"`\n qQ{}":
-        esc += ["`\\" + c + "`", "`a\\" + c + "41}b`", "‛\\" + c, "‛" + c + "\\", "\\\\", "`\\" + c]
+        esc += ["`\\" + c + "`", "`a\\" + c + "41}b`", "‛\\" + c, "‛" + c + "\\", "\\\\", "`\\" + c,
+                "`\\" + c + "7`", "`\\" + c + "77`", "`\\" + c + "777`", "`\\" + c + "8`"]
     progs += esc
     ctx.bump("(d) escapes", len(esc))
     hdr = []
@@ -231,7 +232,7 @@ def run(ctx, widen=False):
     ctx.check_many("compiles", cases)
     ctx.exhaustive = ctx.tier == "thorough"
     ctx.sample({"prog": "3(λ[X];)", "python": transpile("3(λ[X];)")[:300]})
-    sub = progs if thorough else (progs[: 9000] + sweep[:: 7])
+    sub = progs if thorough else (progs[: 9000] + sweep[:: 7] + esc + hdr[:: 5])
     aststream.run_stream(ctx, sub, dict_compress=False)
     placed_stream(ctx, sub)
     nocomp = [p for p in sub[:3000] if not any(c in g["codepage"][:0] for c in p)]
